@@ -73,6 +73,11 @@ func (s *CollapsingHighestDenseStore) extendRange(newMinIndex, newMaxIndex int) 
 	newMaxIndex = max(newMaxIndex, s.maxIndex)
 	if s.IsEmpty() {
 		initialLength := s.getNewLength(newMinIndex, newMaxIndex)
+		if newMaxIndex-newMinIndex+1 > initialLength {
+			// The range does not fit: highest indices are collapsed right away.
+			newMaxIndex = newMinIndex + initialLength - 1
+			s.isCollapsed = true
+		}
 		s.bins = append(s.bins, make([]float64, initialLength)...)
 		s.offset = newMinIndex
 		s.minIndex = newMinIndex
